@@ -117,7 +117,7 @@ copy = Contract('C02', F, 'MailboxData.copy', params=dict(self=MBX, uid=INT, des
 move = Contract('C02', F, 'MailboxData.move', params=dict(self=MBX, uid=INT, destination=MBX, recent=BOOL),
                 alias=[('self', 'destination')], calls=CALLS, atomic=atomic(['self', 'destination']),
                 raises_only=(), ghost_init=D.ghost_init)
-append = Contract('C02', F, 'MailboxData.append', params=dict(self=MBX, append_msg=D.AppendMsg, recent=BOOL),
+append = Contract('C02', F, 'MailboxData.append', globals=D.GLOBALS, params=dict(self=MBX, append_msg=D.AppendMsg, recent=BOOL),
                   calls=CALLS, atomic=atomic(['self']), raises_only=(), ghost_init=D.ghost_init, returns=Msg)
 delete = Contract('C02', F, 'MailboxData.delete', params=dict(self=MBX, uids=ListS(INT)),
                   requires=[('uids_distinct', lambda s: M.distinct(s.uids))],
